@@ -45,7 +45,8 @@ pub fn matrix_f64(rng: &mut Rng, n: usize, fam: &str, wide: bool) -> Vec<f64> {
             let r = [1.5, 2.0, 1.1, 3.0][rng.below(4) as usize];
             let mut pts = Vec::with_capacity(n);
             let mut x = 1.0f64;
-            for _ in 0..n { pts.push(x); x *= r; if x > 1e30 { x = 1.0 + rng.unit(); } }
+            let cap = if wide { 1e100 } else { 1e12 };
+            for _ in 0..n { pts.push(x); x *= r; if x > cap { x = 1.0 + rng.unit(); } }
             if rng.below(2) == 0 { pts.reverse(); }
             for (i, j) in pairs(n) { v.push((pts[i] - pts[j]).abs()); }
         }
